@@ -9,7 +9,8 @@
 //              the shared segment is a process-wide singleton that is never released)
 //   op         S:<key>:<value>:<trig+trig..|.>:<deadline>:<gen|->   store
 //              F:<key>  fetch     R:<trigger>  rise     D:<key>  remove     C  clear     T:<now>  set the clock
-//   strings are hex, `-` is the empty string; a value may be written  #<len>x<hex prefix>  (prefix then 'v' bytes up to len)
+//   strings are hex, `-` is the empty string; a value - and in mode seq a key or trigger name - may be written
+//   #<len>x<hex prefix>  (prefix then 'v' bytes up to len)
 // answer line: one token per op: <tag><result>:<keys>/<triggers>   (stats() after the op)
 //   fetch hit  h:<value>:<sorted triggers>:<deadline>:<generation>:<k>/<t>     miss  m:<k>/<t>
 //   values longer than 32 bytes are printed as #<len>.<fnv1a64>
@@ -70,7 +71,7 @@ static std::set<std::string> trigset(std::string const &t)
 	std::set<std::string> s;
 	if(t==".") return s;
 	std::vector<std::string> v=splitc(t,'+');
-	for(size_t i=0;i<v.size();i++) s.insert(unhex(v[i]));
+	for(size_t i=0;i<v.size();i++) s.insert(value_of(v[i]));	// a name may be written #<len>x<prefix> like a value
 	return s;
 }
 static std::string trigtok(std::set<std::string> const &s)
@@ -95,7 +96,7 @@ static std::string run_seq(cache_ptr c,std::vector<std::string> const &v,size_t 
 		if(i>first) out+=' ';
 		std::string const &o=f[0];
 		if(o=="S" && f.size()==6) {
-			std::string key=unhex(f[1]),val=value_of(f[2]);
+			std::string key=value_of(f[1]),val=value_of(f[2]);
 			std::set<std::string> tr=trigset(f[3]);
 			time_t dl=strtoll(f[4].c_str(),0,10);
 			if(f[5]=="-") c->store(key,val,tr,dl);
@@ -104,11 +105,11 @@ static std::string run_seq(cache_ptr c,std::vector<std::string> const &v,size_t 
 		}
 		else if(o=="F" && f.size()==2) {
 			std::string val; std::set<std::string> tr; time_t dl=-12345; cppcms::uint64_t g=999999;
-			bool hit=c->fetch(unhex(f[1]),&val,&tr,&dl,&g);
+			bool hit=c->fetch(value_of(f[1]),&val,&tr,&dl,&g);
 			// the short form used by cache_interface must agree
 			std::string val2; std::set<std::string> tr2;
-			bool hit2=c->fetch(unhex(f[1]),val2,&tr2);
-			bool hit3=c->fetch(unhex(f[1]),0,0,0,0);
+			bool hit2=c->fetch(value_of(f[1]),val2,&tr2);
+			bool hit3=c->fetch(value_of(f[1]),0,0,0,0);
 			if(hit!=hit2 || hit!=hit3 || (hit && (val!=val2 || tr!=tr2))) out+="FETCH-FORMS-DIFFER:";
 			if(hit) {
 				char buf[96]; snprintf(buf,sizeof(buf),":%lld:%llu:",(long long)dl,(unsigned long long)g);
@@ -116,8 +117,8 @@ static std::string run_seq(cache_ptr c,std::vector<std::string> const &v,size_t 
 			}
 			else out+="m:"+stats_tok(c);
 		}
-		else if(o=="R" && f.size()==2) { c->rise(unhex(f[1])); out+="r:"+stats_tok(c); }
-		else if(o=="D" && f.size()==2) { c->remove(unhex(f[1])); out+="d:"+stats_tok(c); }
+		else if(o=="R" && f.size()==2) { c->rise(value_of(f[1])); out+="r:"+stats_tok(c); }
+		else if(o=="D" && f.size()==2) { c->remove(value_of(f[1])); out+="d:"+stats_tok(c); }
 		else if(o=="C") { c->clear(); out+="c:"+stats_tok(c); }
 		else if(o=="T" && f.size()==2) { vnow=strtoll(f[1].c_str(),0,10); out+="t:"+stats_tok(c); }
 		else out+="BAD-OP";
